@@ -104,7 +104,7 @@ def avgU64 (a b : Nat) : Nat := (a &&& b) + (a ^^^ b) / 2
 /-- `approx::abs_diff_eq!(a, b)` for `f64` (approx 0.5.1, default epsilon `f64::EPSILON`):
 `(if a > b { a - b } else { b - a }) <= epsilon`. -/
 def absDiffEq (a b : Float) : Bool :=
-  (if a > b then a - b else b - a) ≤ 2.220446049250313e-16
+  (if a > b then a - b else b - a) ≤ Float.ofBits 0x3CB0000000000000   -- 2^-52
 
 /-- The `for q in p + 1..n - 1` loop (left-light split: move right). Returns the bounds. -/
 def scanRight (pos : Array Nat) (pw : Array Float) (expected : Float) (hi : Nat) :
@@ -140,7 +140,8 @@ def stepSplit (n : Nat) (pos : Array Nat) (pw : Array Float) (total : Float)
   else
     let lwr := left / (p + 1).toFloat
     let rwr := (total - left) / (n - p - 1).toFloat
-    if Float.abs (lwr - rwr) / total < 0.05 then ({ s with settled := true }, true)
+    -- `SPLIT_TOLERANCE = 0.05` (bits 3FA999999999999A)
+    if Float.abs (lwr - rwr) / total < Float.ofBits 0x3FA999999999999A then ({ s with settled := true }, true)
     else
       let expected := (p + 1).toFloat * total / n.toFloat
       let (mn, mx) :=
@@ -276,13 +277,24 @@ inductive Outcome where
   | panic (cls : String)
 deriving Repr, DecidableEq
 
-/-- `z_curve.rs: z_curve_partition` given the reordered permutation (`perm`, from
-`sortRec`): empty input returns before anything else; `points.len() / part_count`
-panics for `part_count = 0`. -/
-def partition (k : Nat) (perm : List Nat) (p0 : List Nat) : Outcome :=
-  if perm.isEmpty then .ok p0
-  else if k = 0 then .panic "attempt to divide by zero"
-  else .ok (writeIds perm.length k perm p0)
+/-- `max_order = (u128::MAX as f64).log(f64::from(1 << D)) as u32`, evaluated: 64 for
+`D = 2`, 42 for `D = 3` (the driver never gets near these; only the malformed stream does). -/
+def maxOrder (dim : Nat) : Nat := if dim = 2 then 64 else 42
+
+/-- `z_curve.rs: z_curve_partition` on `n` points (`region`: see `sortRec`; `p0` the
+caller's array): length assertion, order assertion, empty input returns early (before
+the division), reorder, `points.len() / part_count` panics for `part_count = 0`, ids. -/
+def partition (dim order k : Nat) (sortBy : (Nat → Nat) → List Nat → List Nat)
+    (region : List Nat → Nat → Nat) (n : Nat) (p0 : List Nat) : Outcome :=
+  if p0.length ≠ n then .panic "assertion `left == right` failed"
+  else if maxOrder dim < order then .panic "Cannot use the z-curve partition algorithm"
+  else if n = 0 then .ok p0
+  else
+    match sortRec (2 ^ dim) sortBy region order [] (List.range n) with
+    | none => .panic "z_curve_partition_recurse"
+    | some perm =>
+      if k = 0 then .panic "attempt to divide by zero"
+      else .ok (writeIds n k perm p0)
 
 end ZCurve
 
